@@ -75,7 +75,7 @@ type c08Case struct {
 	Lockup, Vesting   int64
 	Unit              string
 	Remainder, Amount string
-	Prior             string // none | sent1: the pool already sent 1 to another new account
+	Prior             string // none | sent1: the pool already sent 1 to another new account | sibling: the owner created another, long-locked pool first
 	Restart           bool
 	When              string // before | at | after (pool lock end)
 	Recipient         string // absent | base | vesting | module-blocked | module-gov
@@ -218,6 +218,14 @@ func c08Run(w *harness.World, base sdk.Context, cs c08Case, st *c08Stats, report
 	vt := c08TypeName(cs.Free, cs.Lockup, cs.Vesting, cs.Unit)
 	const poolDur = 20
 	rem := mustInt(cs.Remainder)
+	if cs.Prior == "sibling" {
+		// an earlier pool of the same owner that pays nothing for a long time
+		c0, o0 := w.ExecMsg(ctx, vtypes.NewMsgCreateVestingPool(A.String(), "older", sdk.NewInt(5), 1000*time.Second, vt), harness.ExecOpts{})
+		if o0.Class != harness.OK {
+			panic("c08: sibling pool creation failed: " + o0.Log)
+		}
+		ctx = c0
+	}
 	c1, o1 := w.ExecMsg(ctx, vtypes.NewMsgCreateVestingPool(A.String(), "p", rem, poolDur*time.Second, vt), harness.ExecOpts{})
 	if o1.Class != harness.OK {
 		if rem.IsZero() {
@@ -284,7 +292,7 @@ func c08Run(w *harness.World, base sdk.Context, cs c08Case, st *c08Stats, report
 		return
 	}
 	pools, _ := app.CfevestingKeeper.GetAccountVestingPools(post, A.String())
-	p := pools.VestingPools[0]
+	p := pools.VestingPools[len(pools.VestingPools)-1]
 	if out.Class != harness.OK {
 		atomic.AddInt64(&st.rejected, 1)
 		if !p.Sent.Equal(prior) || !p.Withdrawn.IsZero() {
@@ -328,11 +336,11 @@ func runC08(rc *RunCtx) {
 	var cases []c08Case
 	rems := []string{"0", "1", "3", "10", "1000000000000000001"}
 	amts := []string{"0", "1", "3", "rem", "rem+1"}
-	priors := []string{"none", "sent1"}
+	priors := []string{"none", "sent1", "sibling"}
 	if rc.Thorough() {
 		rems = []string{"0", "1", "2", "3", "10", "100", "1000000000000000001", "999999999999999999999999"}
 		amts = []string{"-1", "0", "1", "2", "3", "rem/2", "rem-1", "rem", "rem+1"}
-		priors = []string{"none", "sent1"}
+		priors = []string{"none", "sent1", "sibling"}
 	}
 	recips := []string{"absent", "base", "vesting", "module-blocked", "module-gov"}
 	resolve := func(r, a string) string {
